@@ -198,6 +198,10 @@ pub enum BKind {
     SizedRaw,
     /// GcStrBuilder completed through str_ptr + assume_init
     StrRaw,
+    /// `[Static<Tok>]` whose length comes from per-type metadata alone (a user PtrMeta / AllocMeta
+    /// with zero-sized per-value metadata, `new_with_type_and_ptr_meta`): values WITH destructors
+    /// whose fat pointer, layout, trace and destructor all depend on the `&'static M`
+    TmToks,
 }
 
 #[derive(Serialize, Deserialize, Clone, Copy, Debug, PartialEq, Eq)]
